@@ -2069,6 +2069,72 @@ Proof.
   exists q. split; [exact E1|]. split; [|now apply invi_agrees]. rewrite (export_explicit_imp _ E2), E3. reflexivity.
 Qed.
 
+(** * Histories with services assembled by hand *)
+
+Definition pend_ok (pend : list svc) : Prop := Forall (fun s => s_handle s = 0) pend.
+
+Lemma map_nth_pend f i pend :
+  (forall s, s_handle (f s) = s_handle s) -> pend_ok pend -> pend_ok (map_nth f i pend).
+Proof.
+  intros Hf. revert i; induction pend as [|s r IH]; intros i H; destruct i; cbn [map_nth]; try exact H.
+  - inversion H; subst. constructor; [now rewrite Hf|assumption].
+  - inversion H; subst. constructor; [assumption|now apply IH].
+Qed.
+
+Lemma remove_nth_pend i pend : pend_ok pend -> pend_ok (remove_nth i pend).
+Proof.
+  revert i; induction pend as [|s r IH]; intros i H; destruct i; cbn [remove_nth]; try exact H.
+  - now inversion H.
+  - inversion H; subst. constructor; [assumption|now apply IH].
+Qed.
+
+(** Whatever was done to a pending service (in whatever order), registering it and every
+    other step of a history preserve the invariant; no step raises. *)
+Lemma hstep_inv p pend h :
+  Inv p -> pend_ok pend ->
+  exists q pend', hstep (p, pend) h = (Done q, pend') /\ Inv q /\ pend_ok pend' /\ p_start q = p_start p
+                  /\ (hop_no_remove h = true -> tight_p p -> tight_p q).
+Proof.
+  intros HI HP. destruct h as [pr u|i cd|i j dd|i u|i|o]; cbn [hstep hop_no_remove].
+  - exists p, (pend ++ [empty_svc pr u]). split; [reflexivity|]. split; [exact HI|]. split; [|auto].
+    apply Forall_app. split; [exact HP|]. now constructor.
+  - eexists p, _. split; [reflexivity|]. split; [exact HI|]. split; [|auto]. now apply map_nth_pend.
+  - eexists p, _. split; [reflexivity|]. split; [exact HI|]. split; [|auto]. now apply map_nth_pend.
+  - eexists p, _. split; [reflexivity|]. split; [exact HI|]. split; [|auto]. now apply map_nth_pend.
+  - destruct (nth_error pend i) as [s|] eqn:E.
+    + assert (H0 : s_handle s = 0). { unfold pend_ok in HP. rewrite Forall_forall in HP. apply HP. eapply nth_error_In; exact E. }
+      eexists _, _. split; [reflexivity|]. split; [now apply add_service_inv|]. split; [now apply remove_nth_pend|].
+      split; [reflexivity|]. intros _ Ht. now apply add_service_tight.
+    + exists p, pend. split; [reflexivity|]. split; [exact HI|]. split; [exact HP|auto].
+  - destruct (step_inv p o HI) as (q & H1 & H2 & H3 & H4). exists q, pend. rewrite H1.
+    split; [reflexivity|]. split; [exact H2|]. split; [exact HP|]. split; [exact H3|].
+    intros Hn. apply H4. now destruct o.
+Qed.
+
+Lemma hrun_inv hs : forall p pend,
+  Inv p -> pend_ok pend ->
+  exists q pend', hrun (p, pend) hs = (Done q, pend') /\ Inv q /\ p_start q = p_start p
+                  /\ (forallb hop_no_remove hs = true -> tight_p p -> tight_p q).
+Proof.
+  induction hs as [|h r IH]; intros p pend HI HP; cbn [hrun forallb fst snd].
+  - exists p, pend. split; [reflexivity|]. split; [exact HI|]. split; [reflexivity|auto].
+  - destruct (hstep_inv p pend h HI HP) as (q & pend' & E & H2 & H3 & H4 & H5). rewrite E.
+    destruct (IH q pend' H2 H3) as (q' & pend'' & E' & K2 & K3 & K4). exists q', pend''.
+    split; [exact E'|]. split; [exact K2|]. split; [congruence|].
+    intros Hn Ht. apply andb_true_iff in Hn as [Hn1 Hn2]. apply K4; [exact Hn2|]. now apply H5.
+Qed.
+
+Theorem hist_layout start sds hs :
+  1 <= start ->
+  exists q pend, hrun (build start sds, []) hs = (Done q, pend) /\ layout true q /\ p_start q = start
+                 /\ (forallb hop_no_remove hs = true -> layout false q).
+Proof.
+  intros H. destruct (build_inv start sds H) as (H1 & H2 & H3).
+  destruct (hrun_inv hs _ [] H1 ltac:(constructor)) as (q & pend & E & HI & Hs & Ht). exists q, pend.
+  split; [exact E|]. split; [now apply inv_layout|]. split; [congruence|].
+  intros Hn. apply invs_layout; [exact HI|now apply Ht].
+Qed.
+
 (** * Instances of a profile class are independent *)
 
 Lemma start_inv n start : 1 <= start -> Inv (mkP start start n [] [] []) /\ tight_p (mkP start start n [] [] []).
